@@ -133,10 +133,14 @@ def run(tier):
             which = "repeat" if hist[i] != again[i] else "fresh-process"
             ctx.violation(f"history-dependent:{which}:{'bundle' if opts.get('output_dependencies') else 'plain'}", f"{src!r}: output depends on what was converted before ({which})", {"source": src, "options": opts})
         ctx.stats["traces_validated_against_impl"] += 1
+    # the same for the image decoders: a second picture decoded in the same process = that picture in a fresh process
+    from vf.props import dec
+
+    dec.decoder_history(ctx, ["hrstoppm", "pixtopgm", "maxtoppm", "mgetoppm", "rattoppm", "cm3toppm"])
     ctx.add_solver_stats(smt.STATS.export())
     ctx.extra["solver"] = {"z3": smt.z3_version()}
     ctx.assume("CPython's hash function is modelled as an arbitrary iteration order of each set (not encoded)")
-    ctx.assume("decoders: determinism follows from C16/C17 (output is a function of the input within their bounds)")
+    ctx.assume("decoders: for one picture determinism follows from C16/C17 (output is a function of the input within their bounds); across pictures two well-formed pictures per format are decoded in sequence and compared with a fresh process")
     return ctx
 
 
